@@ -32,7 +32,7 @@ ASSUMPTIONS = ["pyfftw replaced by a scipy.fft stand-in (numerically equivalent 
                "workers share nothing but the output / QC files", "the batch-wise reference re-uses the repository's own per-batch building blocks (saturation, fshift, "
                "kfilt/car): it judges the batching / seek / stitch logic, not the DSP (C05, C16 do)"]
 REQUIRED = {"configs": 4, "explicit_width_configs": 3, "stale_output_checked": 4, "width_compared": 3, "workers_probed": 10, "write_rows_judged": 50000, "orders_executed": 8, "sync_columns_compared": 4, "reference_compared": 4,
-            "saturated_samples": 10, "reject_runs_with_bad_channels": 1, "custom_filter_settings": 1, "compressed_inputs": 2}
+            "saturated_samples": 10, "reject_runs_with_bad_channels": 1, "custom_filter_settings": 1, "compressed_inputs": 2, "inputs_with_inconsistent_metadata": 2}
 CASE_TIMEOUT = 400.0
 MAX_PROCS = 10
 TAPER = 1024
@@ -73,9 +73,9 @@ def gen_cases(seed, tier):
 
 
 # ------------------------------------------------------------------ recording
-def make_recording(rng, d, ns, n, name="rec", faults=False, nsync=1):
+def make_recording(rng, d, ns, n, name="rec", faults=False, nsync=1, claim_ns=None):
     kind = str(rng.choice(["3B2", "NP2.1", "NP2.4", "3B2", "NP2.4"]))      # every generation, also with fewer saved channels (sampling delays, gains and sync gain differ)
-    rec = G.make(rng, kind=kind, sites=G.draw_sites(rng, kind, n, "dense"), ns=ns, raw=np.zeros((1, 1), np.int16), nsync=nsync)
+    rec = G.make(rng, kind=kind, sites=G.draw_sites(rng, kind, n, "dense"), ns=ns, raw=np.zeros((1, 1), np.int16), nsync=nsync, claim_ns=claim_ns)
     s2v = rec.s2v[:n]
     t = np.arange(ns)[:, None]
     x = rng.standard_normal((ns, n)) * 15e-6 + 40e-6 * np.sin(2 * np.pi * t * rng.uniform(300, 3000, (1, n)) / 30000.0) + \
@@ -268,14 +268,19 @@ def run_case(case):
     try:
         if cls == "sched":
             nw = case["workers"]
-            b, rec = make_recording(rng, d, ns, n, faults=case["opt"] == 6, nsync=0 if case["seed"] % 5 == 3 else 1)      # some recordings are saved without the sync channel
+            # the input is what the FILE holds: some recordings carry metadata written before acquisition ended (fewer samples announced) or of another copy (more)
+            claim = None
+            if case["seed"] % 6 in (4, 5):      # (4: compressed input, 5: flat input)
+                claim = max(1000, ns + int(rng.choice([-1, -1, 1])) * int(rng.choice([1, 700, 2500, 9000])))
+                res.count("inputs_with_inconsistent_metadata")
+            b, rec = make_recording(rng, d, ns, n, faults=case["opt"] == 6, nsync=0 if case["seed"] % 5 == 3 else 1, claim_ns=claim)      # some recordings are saved without the sync channel
             if rec.nsync == 0:
                 res.count("zero_sync_recordings")
             container = "bin"
             if case["seed"] % 3 == 1:
                 # the usual production input: the compressed recording (chunk seams fall anywhere relative to batch seams), duration written with few decimals
                 from vlib import np2 as _np2
-                _np2.round_duration(b.with_suffix(".meta"), ns, rec.fs, rng)
+                _np2.round_duration(b.with_suffix(".meta"), ns if claim is None else claim, rec.fs, rng)
                 b = _np2.compress_original(b, rec, chunk_duration=float(rng.choice([0.05, 0.11, 1.0])))
                 container = "cbin"
                 res.count("compressed_inputs")
@@ -290,7 +295,7 @@ def run_case(case):
             ns2add = opts.get("ns2add", 0)
             total_rows = ns + ns2add
             rowbytes = nc_out * 2
-            label = f"{rec.kind} nsync={rec.nsync} {container} ns={ns} nbatch={nbatch} (K={K} batches) workers={nw} n={n} opts={ {k: (v if np.isscalar(v) or isinstance(v, dict) else 'matrix') for k, v in opts.items()} }"
+            label = f"{rec.kind} nsync={rec.nsync} {container}{'' if claim is None else f' (metadata announces {claim} samples)'} ns={ns} nbatch={nbatch} (K={K} batches) workers={nw} n={n} opts={ {k: (v if np.isscalar(v) or isinstance(v, dict) else 'matrix') for k, v in opts.items()} }"
             res.count("configs")
             res.count("saturated_samples", sum(e - a for a, e in rec.sat))
             chunk = int(ns / nw)
